@@ -72,6 +72,16 @@
 #include "upipe-modules/upipe_audio_blank.h"
 #include "upipe-modules/upipe_sine_wave_source.h"
 #include "upipe-ts/upipe_ts_psi_join.h"
+#include "upipe-modules/upipe_blit.h"
+#include "upipe-modules/upipe_videocont.h"
+#include "upipe-modules/upipe_audiocont.h"
+#include "upipe-modules/upipe_audio_split.h"
+#include "upipe-modules/upipe_audio_merge.h"
+#include "upipe-modules/upipe_grid.h"
+#include "upipe-modules/upipe_rtp_h264.h"
+#include "upipe-modules/upipe_sync.h"
+#include "upipe-modules/upipe_rtp_mpeg4.h"
+#include "upipe-modules/upipe_multicat_probe.h"
 #include "upipe/ubuf_pic_mem.h"
 #include "upipe/ubuf_sound_mem.h"
 #include "upipe/uref_pic.h"
@@ -85,6 +95,7 @@ static int g_pool = 0;
 static int g_prov = 0;   /* 1: the sinks answer uref_mgr / uclock / ubuf_mgr requests themselves (shared managers), inside register;
                           * 2: the sinks keep these requests and answer them only at the operation "provide" (and before the final teardown) */
 static double g_watchdog = 5;
+static bool g_dump;
 static const struct row *g_row;
 
 /* ---- kinds of rows ---- */
@@ -115,6 +126,8 @@ struct optdef {
     void (*valstr)(int vi, char *out, size_t n);
     /* text of the initial value (NULL: read it once after alloc) */
     const char *initial;
+    /* the option belongs to input subpipe 0 (only offered while it exists; forgotten when it is released) */
+    bool on_sub;
 };
 
 struct row {
@@ -147,6 +160,11 @@ struct row {
     bool pump_to_main;         /* with sub_io: the main pipe is an input too; it gets its definition at allocation and the buffers of the upstream pump */
     bool endless;              /* a source whose timer re-arms for ever: the loop is not drained before the release */
     bool out_not_block;        /* the pipe asks for a non-block buffer manager: the sinks never answer requests themselves (they only have a block manager) */
+    unsigned in_shapes;        /* mask of the input shapes offered (0: all five) */
+    bool pic_size_oracle;      /* C04: every picture delivered to a sink has the hsize / vsize of the last definition that sink accepted */
+    struct upipe *(*tick_pipe)(struct side *); /* with pump_to_main: the pipe that takes the buffers of the upstream pump (NULL: the main pipe) */
+    bool sub0_selects;         /* sub_alloc selects subpipe 0 as the input with the subpipe's own command, which is documented to forget the name given to
+                                * option 0 (set_input by name): the model of that option goes back to value 0 (no name) */
 };
 
 /* content of one input shape of a table-driven row */
@@ -182,6 +200,9 @@ struct side {
     struct ubuf *held[MAXSEQ]; /* references kept on shared segments */
     int nheld;
     struct ubuf_mgr *pic_mgr, *sound_mgr; /* picture / sound rows: the upstream's buffer managers (created on first use) */
+    struct ubuf_mgr *pic444_mgr, *f32_mgr, *mono_mgr; /* further upstream managers: planar 4:4:4 pictures, interleaved f32 stereo, f32 mono */
+    /* per record of the sinks' log: size of the picture delivered / hsize and vsize of the definition offered (-1: none) */
+    int rec_w[PX_MAXS], rec_h[PX_MAXS];
 };
 
 struct expect {
@@ -227,6 +248,7 @@ struct st {
     bool disturbed_after_input; /* output / sink answer / flush / definition touched after the first input */
     bool ready_at_first_input;  /* S0 connected, accepting, definition accepted when the first buffer came */
     bool flushed, out_changed, sink_toggled, opt_changed_after_input;
+    int refused_opt;        /* the step just made was a setter of this option and it was refused (-1: no) */
     int ninputs;
     int nops;
     char viol_sig[128], viol_msg[700];
@@ -501,6 +523,132 @@ static int cdelay_get(struct side *s, char *o, size_t n)
     snprintf(o, n, "%" PRId64, v);
     return e;
 }
+
+
+/* ---- options of the generic rows (C20 runs the getters on them) ---- */
+/* crop: offsets of the rectangle from the left / right / top / bottom border of the 8x4 pictures. Value 0 is what alloc_crop sets; value 1 is not
+ * aligned on the chroma grid of a 4:2:0 definition (the pipe rounds its working copy, the configured value stays); value 2 pads (negative offsets);
+ * value 3 exceeds the picture (refused as soon as an input definition is there) */
+static const int64_t crop_vals[4][4] = {{2, 2, 2, 0}, {3, 1, 1, 1}, {-1, 0, -2, 1}, {6, 4, 0, 0}};
+static int crop_set(struct side *s, int vi) { return upipe_crop_set_rect(s->pipe, crop_vals[vi][0], crop_vals[vi][1], crop_vals[vi][2], crop_vals[vi][3]); }
+static int crop_get(struct side *s, char *o, size_t n)
+{
+    int64_t v[4] = {12345, 12345, 12345, 12345};
+    int e = upipe_crop_get_rect(s->pipe, &v[0], &v[1], &v[2], &v[3]);
+    snprintf(o, n, "%" PRId64 "/%" PRId64 "/%" PRId64 "/%" PRId64, v[0], v[1], v[2], v[3]);
+    return e;
+}
+static void crop_vs(int vi, char *o, size_t n)
+{
+    snprintf(o, n, "%" PRId64 "/%" PRId64 "/%" PRId64 "/%" PRId64, crop_vals[vi][0], crop_vals[vi][1], crop_vals[vi][2], crop_vals[vi][3]);
+}
+
+/* trickplay: playing rate; 0/1 and 0/0 are both a pause (documented: "1/1 = normal play, 0 = pause") */
+static const struct urational trick_vals[] = {{1, 1}, {0, 1}, {2, 1}, {0, 0}};
+static int trick_set(struct side *s, int vi) { return upipe_trickp_set_rate(s->pipe, trick_vals[vi]); }
+static int trick_get(struct side *s, char *o, size_t n)
+{
+    struct urational r = {12345, 54321};
+    int e = upipe_trickp_get_rate(s->pipe, &r);
+    snprintf(o, n, "%" PRId64 "/%" PRIu64, r.num, r.den);
+    return e;
+}
+static void trick_vs(int vi, char *o, size_t n) { snprintf(o, n, "%" PRId64 "/%" PRIu64, trick_vals[vi].num, trick_vals[vi].den); }
+
+/* setrap: the random access point written into the buffers (UINT64_MAX: none) */
+static const uint64_t rap_vals[] = {UINT64_MAX, 0, 4321};
+static int rap_set(struct side *s, int vi) { return upipe_setrap_set_rap(s->pipe, rap_vals[vi]); }
+static int rap_get(struct side *s, char *o, size_t n)
+{
+    uint64_t v = 12345;
+    int e = upipe_setrap_get_rap(s->pipe, &v);
+    snprintf(o, n, "%" PRIu64, v);
+    return e;
+}
+static void rap_vs(int vi, char *o, size_t n) { vs_u64(rap_vals, vi, o, n); }
+
+/* multicat_probe: rotation interval and offset; an interval of 0 is documented as invalid */
+static const uint64_t rot_vals[4][2] = {{UPIPE_MULTICAT_PROBE_DEF_ROTATE, UPIPE_MULTICAT_PROBE_DEF_ROTATE_OFFSET}, {10, 3}, {1, 0}, {0, 5}};
+static int rot_set(struct side *s, int vi) { return upipe_multicat_probe_set_rotate(s->pipe, rot_vals[vi][0], rot_vals[vi][1]); }
+static int rot_get(struct side *s, char *o, size_t n)
+{
+    uint64_t r = 12345, off = 54321;
+    int e = upipe_multicat_probe_get_rotate(s->pipe, &r, &off);
+    snprintf(o, n, "%" PRIu64 "+%" PRIu64, r, off);
+    return e;
+}
+static void rot_vs(int vi, char *o, size_t n) { snprintf(o, n, "%" PRIu64 "+%" PRIu64, rot_vals[vi][0], rot_vals[vi][1]); }
+
+/* maximum number of held buffers of input subpipe 0 (helper_input: even, stream_switcher) */
+static int subml_set(struct side *s, int vi) { return upipe_set_max_length(s->subs[0], ml_vals[vi]); }
+static int subml_get(struct side *s, char *o, size_t n)
+{
+    unsigned v = 12345;
+    int e = upipe_get_max_length(s->subs[0], &v);
+    snprintf(o, n, "%u", v);
+    return e;
+}
+
+/* blit, input subpipe 0: destination rectangle (offsets from the left / right / top / bottom border of the 16x8 output picture). The values differ
+ * from one another in one component at a time, some components are equal to each other */
+static const uint64_t brect_vals[4][4] = {{0, 0, 0, 0}, {4, 4, 2, 2}, {4, 4, 2, 4}, {2, 4, 2, 2}};
+static int brect_set(struct side *s, int vi) { return upipe_blit_sub_set_rect(s->subs[0], brect_vals[vi][0], brect_vals[vi][1], brect_vals[vi][2], brect_vals[vi][3]); }
+static int brect_get(struct side *s, char *o, size_t n)
+{
+    uint64_t v[4] = {12345, 12345, 12345, 12345};
+    int e = upipe_blit_sub_get_rect(s->subs[0], &v[0], &v[1], &v[2], &v[3]);
+    snprintf(o, n, "%" PRIu64 "/%" PRIu64 "/%" PRIu64 "/%" PRIu64, v[0], v[1], v[2], v[3]);
+    return e;
+}
+static void brect_vs(int vi, char *o, size_t n)
+{
+    snprintf(o, n, "%" PRIu64 "/%" PRIu64 "/%" PRIu64 "/%" PRIu64, brect_vals[vi][0], brect_vals[vi][1], brect_vals[vi][2], brect_vals[vi][3]);
+}
+/* blit, input subpipe 0: alpha multiplier, alpha threshold, z-index */
+#define BLIT_INT(NAME, SETTER, GETTER, ...)                                    \
+    static const int NAME##_vals[] = {__VA_ARGS__};                           \
+    static int NAME##_set(struct side *s, int vi) { return SETTER(s->subs[0], NAME##_vals[vi]); } \
+    static int NAME##_get(struct side *s, char *o, size_t n)                   \
+    {                                                                          \
+        int v = 12345;                                                         \
+        int e = GETTER(s->subs[0], &v);                                        \
+        snprintf(o, n, "%d", v);                                               \
+        return e;                                                              \
+    }                                                                          \
+    static void NAME##_vs(int vi, char *o, size_t n) { snprintf(o, n, "%d", NAME##_vals[vi]); }
+BLIT_INT(balpha, upipe_blit_sub_set_alpha, upipe_blit_sub_get_alpha, 0xff, 0x80)
+BLIT_INT(bthresh, upipe_blit_sub_set_alpha_threshold, upipe_blit_sub_get_alpha_threshold, 0, 0x40)
+BLIT_INT(bz, upipe_blit_sub_set_z_index, upipe_blit_sub_get_z_index, 0, -1, 1)
+
+/* videocont / audiocont: name of the input to select (the input definitions F1 / F2 are named "in1" / "in2"), latency, tolerance / crossblend period */
+static const char *const cont_names[] = {NULL, "in1", "in2"};
+static void cont_name_vs(int vi, char *o, size_t n) { snprintf(o, n, "%s", cont_names[vi] ? cont_names[vi] : "null"); }
+static const uint64_t cont_u64[] = {20, 90000};
+static void cont_u64_vs(int vi, char *o, size_t n) { vs_u64(cont_u64, vi, o, n); }
+#define CONT_NAME(NAME, SETTER, GETTER)                                        \
+    static int NAME##_set(struct side *s, int vi) { return SETTER(s->pipe, cont_names[vi]); } \
+    static int NAME##_get(struct side *s, char *o, size_t n)                   \
+    {                                                                          \
+        const char *v = "untouched";                                           \
+        int e = GETTER(s->pipe, &v);                                           \
+        snprintf(o, n, "%s", v ? v : "null");                                  \
+        return e;                                                              \
+    }
+#define CONT_U64(NAME, SETTER, GETTER)                                         \
+    static int NAME##_set(struct side *s, int vi) { return SETTER(s->pipe, cont_u64[vi]); } \
+    static int NAME##_get(struct side *s, char *o, size_t n)                   \
+    {                                                                          \
+        uint64_t v = 12345;                                                    \
+        int e = GETTER(s->pipe, &v);                                           \
+        snprintf(o, n, "%" PRIu64, v);                                         \
+        return e;                                                              \
+    }
+CONT_NAME(vcname, upipe_videocont_set_input, upipe_videocont_get_input)
+CONT_U64(vclat, upipe_videocont_set_latency, upipe_videocont_get_latency)
+CONT_U64(vctol, upipe_videocont_set_tolerance, upipe_videocont_get_tolerance)
+CONT_NAME(acname, upipe_audiocont_set_input, upipe_audiocont_get_input)
+CONT_U64(aclat, upipe_audiocont_set_latency, upipe_audiocont_get_latency)
+CONT_U64(acxb, upipe_audiocont_set_crossblend, upipe_audiocont_get_crossblend)
 
 /* ------------------------------------------------------------------ */
 /* allocators                                                            */
@@ -993,6 +1141,331 @@ static struct upipe *alloc_qsink_noloop(struct side *s)
     return qsink;
 }
 
+
+/* ---- crop with options, blit, videocont, audiocont ---- */
+/* planar 4:4:4, 8 bits (a definition without chroma subsampling) */
+static struct ubuf_mgr *side_pic444_mgr(struct side *s)
+{
+    if (s->pic444_mgr == NULL) {
+        s->pic444_mgr = ubuf_pic_mem_mgr_alloc(g_pool, g_pool, s->fx.umem_mgr, 1, 0, 0, 6, 2, 0, 0);
+        assert(s->pic444_mgr);
+        ubase_assert(ubuf_pic_mem_mgr_add_plane(s->pic444_mgr, "y8", 1, 1, 1));
+        ubase_assert(ubuf_pic_mem_mgr_add_plane(s->pic444_mgr, "u8", 1, 1, 1));
+        ubase_assert(ubuf_pic_mem_mgr_add_plane(s->pic444_mgr, "v8", 1, 1, 1));
+    }
+    return s->pic444_mgr;
+}
+/* one plane of two interleaved f32 channels */
+static struct ubuf_mgr *side_f32_mgr(struct side *s)
+{
+    if (s->f32_mgr == NULL) {
+        s->f32_mgr = ubuf_sound_mem_mgr_alloc(g_pool, g_pool, s->fx.umem_mgr, 8, 0);
+        assert(s->f32_mgr);
+        ubase_assert(ubuf_sound_mem_mgr_add_plane(s->f32_mgr, "lr"));
+    }
+    return s->f32_mgr;
+}
+/* dates well above one second: videocont subtracts its retention time (one second) from the dates it compares */
+static void cat_stamp_late(struct uref *u, int seq)
+{
+    ubase_assert(uref_attr_set_unsigned(u, seq, UDICT_TYPE_UNSIGNED, "x.seq"));
+    uref_clock_set_cr_sys(u, UINT64_C(1000000000) + 10 * seq);
+    uref_clock_set_cr_prog(u, UINT64_C(2000000000) + 10 * seq);
+    uref_clock_set_cr_orig(u, UINT64_C(3000000000) + 10 * seq);
+    uref_clock_set_cr_dts_delay(u, 3);
+    uref_clock_set_dts_pts_delay(u, 4);
+}
+/* a w x h picture from manager mgr, every line of every plane filled with its own octet; shapes as mk_pic (0 progressive, 1 top field first,
+ * 4 shared with the upstream) */
+static struct uref *cat_pic(struct side *s, struct ubuf_mgr *mgr, int seq, int sh, int w, int h, struct ubuf **held_p)
+{
+    struct uref *u = uref_pic_alloc(s->fx.uref_mgr, mgr, w, h);
+    assert(u);
+    static const char *const chroma[3] = {"y8", "u8", "v8"};
+    for (int pl = 0; pl < 3; pl++) {
+        uint8_t *b;
+        size_t stride;
+        uint8_t hsub, vsub;
+        ubase_assert(uref_pic_plane_size(u, chroma[pl], &stride, &hsub, &vsub, NULL));
+        ubase_assert(uref_pic_plane_write(u, chroma[pl], 0, 0, -1, -1, &b));
+        for (int y = 0; y < h / vsub; y++)
+            memset(b + y * stride, (uint8_t)(seq * 16 + pl * 4 + y), w / hsub);
+        ubase_assert(uref_pic_plane_unmap(u, chroma[pl], 0, 0, -1, -1));
+    }
+    if (sh == 0)
+        ubase_assert(uref_pic_set_progressive(u));
+    if (sh == 1)
+        ubase_assert(uref_pic_set_tff(u));
+    if (held_p != NULL) {
+        *held_p = ubuf_dup(u->ubuf);
+        assert(*held_p);
+    }
+    return u;
+}
+/* picture definition: planar 8 bits, 4:2:0 or 4:4:4, w x h */
+static void fix_pic_fmt(struct uref *f, int w, int h, bool c444)
+{
+    ubase_assert(uref_pic_flow_set_macropixel(f, 1));
+    ubase_assert(uref_pic_flow_set_planes(f, 0));
+    ubase_assert(uref_pic_flow_add_plane(f, 1, 1, 1, "y8"));
+    ubase_assert(uref_pic_flow_add_plane(f, c444 ? 1 : 2, c444 ? 1 : 2, 1, "u8"));
+    ubase_assert(uref_pic_flow_add_plane(f, c444 ? 1 : 2, c444 ? 1 : 2, 1, "v8"));
+    ubase_assert(uref_pic_flow_set_hsize(f, w));
+    ubase_assert(uref_pic_flow_set_vsize(f, h));
+    ubase_assert(uref_pic_flow_set_hsize_visible(f, w));
+    ubase_assert(uref_pic_flow_set_vsize_visible(f, h));
+    struct urational fps = {25, 1};
+    ubase_assert(uref_pic_flow_set_fps(f, fps));
+}
+
+/* crop: F1 is a 4:2:0 definition, F2 a 4:4:4 one; the pictures follow the definition in force */
+static void fix_crop(struct uref *f, int id) { fix_pic_fmt(f, g_row->pic_w, g_row->pic_h, id == 2); }
+static struct uref *mk_crop(struct side *s, int seq, int sh, struct ubuf **held_p)
+{
+    struct uref *u = cat_pic(s, s->st->flow == 2 ? side_pic444_mgr(s) : side_pic_mgr(s), seq, sh, g_row->pic_w, g_row->pic_h, held_p);
+    cat_stamp(u, seq);
+    return u;
+}
+
+/* blit: the main pipe takes the 16x8 background pictures (definition given at allocation, pictures from the upstream's pump) and is given an event
+ * loop, so that it announces when it is ready to prepare a picture (the probe then asks for it, like uprobe_blit_prepare); the input subpipes take
+ * the pictures to blit: F1 is 4x2 at (2,2), F2 2x2 at (8,4) */
+static struct upipe *alloc_blit(struct side *s)
+{
+    struct upipe *p = upipe_void_alloc(upipe_blit_mgr_alloc(), px_probe(&s->fx));
+    assert(p);
+    ubase_assert(upipe_attach_upump_mgr(p));
+    struct uref *f = px_flow(&s->fx, "pic.", 8);
+    fix_pic_fmt(f, g_row->pic_w, g_row->pic_h, false);
+    ubase_assert(upipe_set_flow_def(p, f));
+    uref_free(f);
+    return p;
+}
+static void fix_blit_sub(struct uref *f, int id)
+{
+    fix_pic_fmt(f, id == 1 ? 4 : 2, 2, false);
+    ubase_assert(uref_pic_set_hposition(f, id == 1 ? 2 : 8));
+    ubase_assert(uref_pic_set_vposition(f, id == 1 ? 2 : 4));
+}
+static struct uref *mk_blit(struct side *s, int seq, int sh, struct ubuf **held_p)
+{
+    struct uref *u = s->in_pump ? cat_pic(s, side_pic_mgr(s), seq, sh, g_row->pic_w, g_row->pic_h, held_p)
+                                : cat_pic(s, side_pic_mgr(s), seq, sh, s->st->flow == 2 ? 2 : 4, 2, held_p);
+    cat_stamp(u, seq);
+    return u;
+}
+
+/* videocont: the main pipe is the reference input (8x4 pictures whose dates pace the output; definition given at allocation, pictures from the
+ * upstream's pump), the subpipes take the pictures to show; subpipe 0 is selected as the input when it is allocated (set_input by name is an
+ * option). F1 (named "in1") is 8x4, F2 ("in2") 4x4; the pictures follow the definition in force */
+static struct upipe *alloc_videocont(struct side *s)
+{
+    struct upipe *p = upipe_void_alloc(upipe_videocont_mgr_alloc(), px_probe(&s->fx));
+    assert(p);
+    struct uref *f = px_flow(&s->fx, "pic.", 8);
+    fix_pic_fmt(f, g_row->pic_w, g_row->pic_h, false);
+    ubase_assert(upipe_set_flow_def(p, f));
+    uref_free(f);
+    return p;
+}
+static struct upipe *sub_videocont(struct side *s, int k)
+{
+    struct upipe *sub = upipe_void_alloc_sub(s->pipe, px_probe(&s->fx));
+    assert(sub);
+    if (k == 0)
+        ubase_assert(upipe_videocont_sub_set_input(sub));
+    return sub;
+}
+static void fix_videocont_sub(struct uref *f, int id)
+{
+    fix_pic_fmt(f, id == 1 ? 8 : 4, 4, false);
+    ubase_assert(uref_flow_set_name(f, id == 1 ? "in1" : "in2"));
+}
+static struct uref *mk_videocont(struct side *s, int seq, int sh, struct ubuf **held_p)
+{
+    struct uref *u = s->in_pump ? cat_pic(s, side_pic_mgr(s), seq, sh, g_row->pic_w, g_row->pic_h, held_p)
+                                : cat_pic(s, side_pic_mgr(s), seq, sh, s->st->flow == 2 ? 4 : 8, 4, held_p);
+    cat_stamp_late(u, seq);
+    return u;
+}
+
+/* audiocont: same structure with sound (one plane of two interleaved f32 channels, 48 kHz); every buffer lasts as long as the distance between
+ * the dates of two consecutive test buffers. F2 differs from F1 by its name only ("in1" / "in2"): the pipe refuses another format */
+static void fix_f32(struct uref *f, int id)
+{
+    ubase_assert(uref_sound_flow_set_channels(f, 2));
+    ubase_assert(uref_sound_flow_set_sample_size(f, 8));
+    ubase_assert(uref_sound_flow_set_planes(f, 0));
+    ubase_assert(uref_sound_flow_add_plane(f, "lr"));
+    ubase_assert(uref_sound_flow_set_rate(f, 48000));
+    if (id == 1 || id == 2)
+        ubase_assert(uref_flow_set_name(f, id == 1 ? "in1" : "in2"));
+}
+static struct upipe *alloc_audiocont(struct side *s)
+{
+    struct uref *f = px_flow(&s->fx, "sound.f32.", 8);
+    fix_f32(f, 8);
+    struct upipe *p = upipe_flow_alloc(upipe_audiocont_mgr_alloc(), px_probe(&s->fx), f);
+    assert(p);
+    ubase_assert(upipe_set_flow_def(p, f));
+    uref_free(f);
+    return p;
+}
+static struct upipe *sub_audiocont(struct side *s, int k)
+{
+    struct upipe *sub = upipe_void_alloc_sub(s->pipe, px_probe(&s->fx));
+    assert(sub);
+    if (k == 0)
+        ubase_assert(upipe_audiocont_sub_set_input(sub));
+    return sub;
+}
+static struct uref *mk_f32(struct side *s, int seq, int sh, struct ubuf **held_p)
+{
+    static const int n[NSHAPES] = {2, 5, 1, 3, 4};
+    struct uref *u = uref_sound_alloc(s->fx.uref_mgr, side_f32_mgr(s), n[sh]);
+    assert(u);
+    float *w;
+    ubase_assert(uref_sound_write_float(u, 0, -1, &w, 1));
+    for (int i = 0; i < 2 * n[sh]; i++)
+        w[i] = (float)(seq * 16 + i + 1) / 256;
+    ubase_assert(uref_sound_unmap(u, 0, -1, 1));
+    cat_stamp_late(u, seq);
+    ubase_assert(uref_clock_set_duration(u, 10));
+    if (held_p != NULL) {
+        *held_p = ubuf_dup(u->ubuf);
+        assert(*held_p);
+    }
+    return u;
+}
+
+/* audio_split: interleaved s32 stereo in (mk_sound); the output subpipes are allocated with the channel they extract (left / right, one plane) */
+ALLOC_VOID(audio_split, upipe_audio_split_mgr_alloc)
+static struct upipe *sub_audio_split(struct side *s, int k)
+{
+    struct uref *f = uref_sound_flow_alloc_def(s->fx.uref_mgr, "", 1, 0);
+    assert(f);
+    ubase_assert(uref_flow_set_id(f, 10 + k));
+    ubase_assert(uref_sound_flow_add_plane(f, k ? "r" : "l"));
+    ubase_assert(uref_audio_split_set_bitfield(f, k ? 0x2 : 0x1));
+    struct upipe *sub = upipe_flow_alloc_sub(s->pipe, px_probe(&s->fx), f);
+    uref_free(f);
+    return sub;
+}
+/* audio_merge is allocated with its output definition (planar f32 stereo); its subpipes are the inputs, one planar channel each (F2 announces
+ * a latency, which the pipe copies to its output definition) */
+static struct upipe *alloc_audio_merge(struct side *s)
+{
+    struct uref *f = uref_sound_flow_alloc_def(s->fx.uref_mgr, "f32.", 2, 4);
+    assert(f);
+    ubase_assert(uref_flow_set_id(f, 9));
+    ubase_assert(uref_sound_flow_add_plane(f, "l"));
+    ubase_assert(uref_sound_flow_add_plane(f, "r"));
+    ubase_assert(uref_sound_flow_set_rate(f, 48000));
+    struct upipe *p = upipe_flow_alloc(upipe_audio_merge_mgr_alloc(), px_probe(&s->fx), f);
+    uref_free(f);
+    return p;
+}
+static void fix_mono(struct uref *f, int id)
+{
+    ubase_assert(uref_sound_flow_set_channels(f, 1));
+    ubase_assert(uref_sound_flow_set_sample_size(f, 4));
+    ubase_assert(uref_sound_flow_set_planes(f, 0));
+    ubase_assert(uref_sound_flow_add_plane(f, "l"));
+    ubase_assert(uref_sound_flow_set_rate(f, 48000));
+    if (id == 2)
+        ubase_assert(uref_clock_set_latency(f, 50));
+}
+static struct uref *mk_mono(struct side *s, int seq, int sh, struct ubuf **held_p)
+{
+    static const int n[NSHAPES] = {2, 5, 1, 3, 4};
+    if (s->mono_mgr == NULL) {
+        s->mono_mgr = ubuf_sound_mem_mgr_alloc(g_pool, g_pool, s->fx.umem_mgr, 4, 0);
+        assert(s->mono_mgr);
+        ubase_assert(ubuf_sound_mem_mgr_add_plane(s->mono_mgr, "l"));
+    }
+    struct uref *u = uref_sound_alloc(s->fx.uref_mgr, s->mono_mgr, n[sh]);
+    assert(u);
+    float *w;
+    ubase_assert(uref_sound_write_float(u, 0, -1, &w, 1));
+    for (int i = 0; i < n[sh]; i++)
+        w[i] = (float)(seq * 16 + i + 1) / 256;
+    ubase_assert(uref_sound_unmap(u, 0, -1, 1));
+    cat_stamp(u, seq);
+    if (held_p != NULL) {
+        *held_p = ubuf_dup(u->ubuf);
+        assert(*held_p);
+    }
+    return u;
+}
+
+/* grid: the first subpipe is a grid input (pictures: F1 8x4, F2 4x4), the second a grid output, allocated with its reference definition and
+ * connected to the input; the buffers of the upstream pump (no payload, dated) go to the grid output and pace it; its output is S3 */
+static struct upipe *alloc_grid(struct side *s)
+{
+    struct upipe *p = upipe_void_alloc(upipe_grid_mgr_alloc(), px_probe(&s->fx));
+    assert(p);
+    ubase_assert(upipe_attach_uclock(p));
+    return p;
+}
+static struct upipe *sub_grid(struct side *s, int k)
+{
+    if (k == 0)
+        return upipe_grid_alloc_input(s->pipe, px_probe(&s->fx));
+    struct upipe *out = upipe_grid_alloc_output(s->pipe, px_probe(&s->fx));
+    assert(out);
+    struct uref *f = px_flow(&s->fx, "pic.", 9);
+    ubase_assert(upipe_set_flow_def(out, f));
+    uref_free(f);
+    ubase_assert(upipe_grid_out_set_input(out, s->subs[0]));
+    return out;
+}
+static struct upipe *tick_grid(struct side *s) { return s->subs[1]; }
+static struct uref *mk_grid(struct side *s, int seq, int sh, struct ubuf **held_p)
+{
+    struct uref *u;
+    if (s->in_pump) {
+        u = uref_alloc(s->fx.uref_mgr);
+        assert(u);
+    } else
+        u = cat_pic(s, side_pic_mgr(s), seq, sh, s->st->flow == 2 ? 4 : 8, 4, held_p);
+    cat_stamp(u, seq);
+    return u;
+}
+
+/* rtp_h264: access units in Annex B form (the pipe emits one buffer per NAL unit); shape 3 ends with an end-of-sequence and an end-of-stream NAL unit, which
+ * consist of their header octet only */
+static const struct inshape tab_h264[NSHAPES] = {
+    INS("AUD+SPS", "\x00\x00\x01\x09\xf0\x00\x00\x01\x67\x42\x00\x1e", 0, false, false),
+    INS("IDR slice,4-octet start code(2 segs)", "\x00\x00\x00\x01\x65\x88\x84\x21", 5, false, false),
+    INS("empty", "", 0, false, false),
+    INS("slice+end of sequence+end of stream", "\x00\x00\x01\x41\x9a\x02\x00\x00\x01\x0a\x00\x00\x01\x0b", 0, false, false),
+    INS("no start code(2 segs,2nd shared)", "\x11\x12\x13\x14", 2, false, false),
+};
+ALLOC_VOID(rtp_h264, upipe_rtp_h264_mgr_alloc)
+ALLOC_VOID(rtp_mpeg4, upipe_rtp_mpeg4_mgr_alloc)
+
+/* sync: the main pipe takes the pictures (8x4, 25 frames per second; definition given at allocation, pictures from the upstream's pump) and is
+ * attached to the clock; the input subpipes take interleaved s32 stereo sound (mk_sound); outputs on the main pipe (S0) and on the subpipes */
+static struct upipe *alloc_sync(struct side *s)
+{
+    struct upipe *p = upipe_void_alloc(upipe_sync_mgr_alloc(), px_probe(&s->fx));
+    assert(p);
+    ubase_assert(upipe_attach_uclock(p));
+    struct uref *f = px_flow(&s->fx, "pic.", 8);
+    fix_pic_fmt(f, g_row->pic_w, g_row->pic_h, false);
+    ubase_assert(upipe_set_flow_def(p, f));
+    uref_free(f);
+    return p;
+}
+static struct uref *mk_sync(struct side *s, int seq, int sh, struct ubuf **held_p)
+{
+    if (!s->in_pump)
+        return mk_sound(s, seq, sh, held_p);
+    struct uref *u = cat_pic(s, side_pic_mgr(s), seq, sh, g_row->pic_w, g_row->pic_h, held_p);
+    cat_stamp(u, seq);
+    return u;
+}
+
 /* ------------------------------------------------------------------ */
 /* expected transformations (documented changes), written independently   */
 /* ------------------------------------------------------------------ */
@@ -1174,18 +1647,21 @@ static const struct row rows[] = {
     /* further module pipes, generic oracles only (accounting, life cycle, flow negotiation, generic getters) */
     {.name = "burst", .kind = K_RECHUNK, .alloc = alloc_burst, .bad_def = "pic.", .uses_pumps = true},
     {.name = "convert_to_block", .kind = K_RECHUNK, .alloc = alloc_tblk},
-    {.name = "discard_blocking", .kind = K_RECHUNK, .alloc = alloc_disblo, .uses_pumps = true},
+    {.name = "discard_blocking", .kind = K_RECHUNK, .alloc = alloc_disblo, .uses_pumps = true,
+     .nopts = 1, .opt = {{"max_length", 3, ml_set, ml_get, ml_vs, NULL}}},
     {.name = "dump", .kind = K_RECHUNK, .alloc = alloc_dump, .bad_def = "pic."},
     {.name = "noclock", .kind = K_RECHUNK, .alloc = alloc_noclock},
     {.name = "nodemux", .kind = K_RECHUNK, .alloc = alloc_nodemux},
-    {.name = "setrap", .kind = K_RECHUNK, .alloc = alloc_setrap},
+    {.name = "setrap", .kind = K_RECHUNK, .alloc = alloc_setrap,
+     .nopts = 1, .opt = {{"rap", 3, rap_set, rap_get, rap_vs, "18446744073709551615"}}},
     {.name = "dejitter", .kind = K_RECHUNK, .alloc = alloc_dejitter},
-    {.name = "multicat_probe", .kind = K_RECHUNK, .alloc = alloc_multicat_probe},
+    {.name = "multicat_probe", .kind = K_RECHUNK, .alloc = alloc_multicat_probe,
+     .nopts = 1, .opt = {{"rotate", 4, rot_set, rot_get, rot_vs, "97200000000+0"}}},
     {.name = "aes_decrypt", .kind = K_RECHUNK, .alloc = alloc_aes_decrypt, .bad_def = "pic.", .in_def = "block.aes.", .flow_fix = fix_aes, .in_scale = 8,
      .out_def_prefix = "block."},
     {.name = "aes_decrypt_clear", .kind = K_RECHUNK, .alloc = alloc_aes_decrypt, .bad_def = "pic.", .out_def_prefix = "block."},
     {.name = "block_to_sound", .kind = K_RECHUNK, .alloc = alloc_block_to_sound, .bad_def = "pic.", .in_scale = 16, .out_def_prefix = "sound.s32.", .out_not_block = true},
-    {.name = "dtsdi", .kind = K_RECHUNK, .alloc = alloc_dtsdi, .in_tab = tab_dtsdi},
+    {.name = "dtsdi", .kind = K_RECHUNK, .alloc = alloc_dtsdi, .in_tab = tab_dtsdi}, /* (its output size is derived from the file header: not an option) */
     {.name = "rtp_pcm_unpack", .kind = K_RECHUNK, .alloc = alloc_rtp_pcm_unpack, .bad_def = "block.", .in_def = "block.s24be.sound.", .flow_fix = fix_pcm,
      .in_scale = 12, .out_def_prefix = "sound.s32.", .out_not_block = true},
     {.name = "m3u_reader", .kind = K_RECHUNK, .alloc = alloc_m3u_reader, .bad_def = "pic.", .in_tab = tab_m3u, .out_def_prefix = "block.m3u."},
@@ -1201,6 +1677,9 @@ static const struct row rows[] = {
     {.name = "s302_framer", .kind = K_RECHUNK, .alloc = alloc_s302f, .bad_def = "block.mpegts.", .in_def = "block.s302m.sound.", .in_tab = tab_s302,
      .out_def_prefix = "block.s302m.sound."},
     {.name = "opus_framer", .kind = K_RECHUNK, .alloc = alloc_opusf, .bad_def = "block.mpegts.", .in_def = "block.opus.", .in_tab = tab_opus, .out_def_prefix = "block.opus."},
+    {.name = "rtp_h264", .kind = K_RECHUNK, .alloc = alloc_rtp_h264, .bad_def = "block.", .in_def = "block.h264.", .in_tab = tab_h264, .out_def_prefix = "block.h264."},
+    /* (ADTS frames: 7 octets of header, then the payload; the shorter shapes are refused) */
+    {.name = "rtp_mpeg4", .kind = K_RECHUNK, .alloc = alloc_rtp_mpeg4, .bad_def = "block.", .in_def = "block.aac.sound.", .in_scale = 4, .out_def_prefix = "block.aac.sound."},
     {.name = "void_source", .kind = K_RECHUNK, .alloc = alloc_voidsrc, .uses_pumps = true, .endless = true, .out_def_prefix = "void."},
     /* picture and sound inputs (buffers from the upstream's own picture / sound manager) */
     {.name = "separate_fields", .kind = K_RECHUNK, .alloc = alloc_separate_fields, .bad_def = "block.", .in_def = "pic.", .flow_fix = fix_pic, .mk_input = mk_pic,
@@ -1215,8 +1694,9 @@ static const struct row rows[] = {
      .out_def_prefix = "block.s24be.sound."},
     {.name = "audio_copy", .kind = K_RECHUNK, .alloc = alloc_audio_copy, .bad_def = "block.", .in_def = "sound.s32.", .flow_fix = fix_sound, .mk_input = mk_sound,
      .out_def_prefix = "sound.s32.", .out_not_block = true},
-    {.name = "crop", .kind = K_RECHUNK, .alloc = alloc_crop, .bad_def = "block.", .in_def = "pic.", .flow_fix = fix_pic, .mk_input = mk_pic,
-     .pic_w = 8, .pic_h = 4, .out_def_prefix = "pic.", .out_not_block = true},
+    {.name = "crop", .kind = K_RECHUNK, .alloc = alloc_crop, .bad_def = "block.", .in_def = "pic.", .flow_fix = fix_crop, .mk_input = mk_crop,
+     .pic_w = 8, .pic_h = 4, .out_def_prefix = "pic.", .out_not_block = true, .pic_size_oracle = true,
+     .nopts = 1, .opt = {{"rect", 4, crop_set, crop_get, crop_vs, "2/2/2/0"}}},
     {.name = "video_blank", .kind = K_RECHUNK, .alloc = alloc_vblk, .bad_def = "block.", .in_def = "void.", .mk_input = mk_void, .pic_w = 8, .pic_h = 4,
      .out_def_prefix = "pic.", .out_not_block = true},
     {.name = "audio_blank", .kind = K_RECHUNK, .alloc = alloc_ablk, .bad_def = "block.", .in_def = "void.", .mk_input = mk_void, .out_def_prefix = "sound.s32.",
@@ -1226,10 +1706,41 @@ static const struct row rows[] = {
     {.name = "dejitter_sub", .kind = K_RECHUNK, .alloc = alloc_dejitter_both, .has_subs = true, .sub_io = true, .pump_to_main = true},
     {.name = "subpic_schedule", .kind = K_RECHUNK, .alloc = alloc_subpic},
     {.name = "subpic_schedule_sub", .kind = K_RECHUNK, .alloc = alloc_subpic_both, .has_subs = true, .sub_io = true, .pump_to_main = true},
-    {.name = "even", .kind = K_RECHUNK, .alloc = alloc_even, .has_subs = true, .sub_io = true},
-    {.name = "trickplay", .kind = K_RECHUNK, .alloc = alloc_trickp, .has_subs = true, .sub_io = true},
+    {.name = "even", .kind = K_RECHUNK, .alloc = alloc_even, .has_subs = true, .sub_io = true,
+     .nopts = 1, .opt = {{"sub0.max_length", 3, subml_set, subml_get, ml_vs, NULL, .on_sub = true}}},
+    {.name = "trickplay", .kind = K_RECHUNK, .alloc = alloc_trickp, .has_subs = true, .sub_io = true,
+     .nopts = 1, .opt = {{"rate", 4, trick_set, trick_get, trick_vs, "1/1"}}},
     {.name = "play", .kind = K_RECHUNK, .alloc = alloc_play, .has_subs = true, .sub_io = true},
     {.name = "stream_switcher", .kind = K_RECHUNK, .alloc = alloc_stream_switcher, .has_subs = true, .sub_io = true},
+    /* (the same pipe with the option of its input subpipe: a row of its own, one operation shallower, so that the row above keeps its depth) */
+    {.name = "stream_switcher_ml", .kind = K_RECHUNK, .alloc = alloc_stream_switcher, .has_subs = true, .sub_io = true,
+     .nopts = 1, .opt = {{"sub0.max_length", 3, subml_set, subml_get, ml_vs, NULL, .on_sub = true}}},
+    /* pipes with a reference input (main pipe: definition at allocation, buffers from the upstream's pump) and input subpipes */
+    {.name = "blit", .kind = K_RECHUNK, .alloc = alloc_blit, .has_subs = true, .sub_io = true, .pump_to_main = true, .uses_pumps = true, .bad_def = "block.",
+     .in_def = "pic.", .flow_fix = fix_blit_sub, .mk_input = mk_blit, .pic_w = 16, .pic_h = 8, .out_def_prefix = "pic.", .out_not_block = true,
+     .pic_size_oracle = true, .in_shapes = 1 << 0 | 1 << 4, .nopts = 4,
+     .opt = {{"sub0.rect", 4, brect_set, brect_get, brect_vs, "0/0/0/0", .on_sub = true}, {"sub0.alpha", 2, balpha_set, balpha_get, balpha_vs, "255", .on_sub = true},
+             {"sub0.alpha_threshold", 2, bthresh_set, bthresh_get, bthresh_vs, "0", .on_sub = true}, {"sub0.z_index", 3, bz_set, bz_get, bz_vs, "0", .on_sub = true}}},
+    {.name = "videocont", .kind = K_RECHUNK, .alloc = alloc_videocont, .has_subs = true, .sub_io = true, .pump_to_main = true, .sub_alloc = sub_videocont, .sub0_selects = true,
+     .bad_def = "block.", .in_def = "pic.", .flow_fix = fix_videocont_sub, .mk_input = mk_videocont, .pic_w = 8, .pic_h = 4, .out_def_prefix = "pic.",
+     .out_not_block = true, .pic_size_oracle = true, .in_shapes = 1 << 0 | 1 << 4, .nopts = 3,
+     .opt = {{"input", 3, vcname_set, vcname_get, cont_name_vs, "null"}, {"latency", 2, vclat_set, vclat_get, cont_u64_vs, "0"},
+             {"tolerance", 2, vctol_set, vctol_get, cont_u64_vs, "1080000"}}},
+    {.name = "audiocont", .kind = K_RECHUNK, .alloc = alloc_audiocont, .has_subs = true, .sub_io = true, .pump_to_main = true, .sub_alloc = sub_audiocont, .sub0_selects = true,
+     .bad_def = "sound.s16.", .in_def = "sound.f32.", .flow_fix = fix_f32, .mk_input = mk_f32, .out_def_prefix = "sound.f32.", .out_not_block = true,
+     .in_shapes = 1 << 0 | 1 << 1 | 1 << 4, .nopts = 3,
+     .opt = {{"input", 3, acname_set, acname_get, cont_name_vs, "null"}, {"latency", 2, aclat_set, aclat_get, cont_u64_vs, "0"},
+             {"crossblend", 2, acxb_set, acxb_get, cont_u64_vs, "5400000"}}},
+    {.name = "sync", .kind = K_RECHUNK, .alloc = alloc_sync, .has_subs = true, .sub_io = true, .pump_to_main = true, .uses_pumps = true, .bad_def = "block.",
+     .in_def = "sound.s32.", .flow_fix = fix_sound, .mk_input = mk_sync, .pic_w = 8, .pic_h = 4, .out_not_block = true, .in_shapes = 1 << 0 | 1 << 1 | 1 << 4,
+     .endless = true /* once a picture has come, the pipe's timer re-arms for every frame period and repeats the last picture */},
+    {.name = "grid", .kind = K_RECHUNK, .alloc = alloc_grid, .has_subs = true, .sub_io = true, .pump_to_main = true, .sub_alloc = sub_grid, .tick_pipe = tick_grid,
+     .uses_pumps = true, .bad_def = "block.", .in_def = "pic.", .flow_fix = fix_videocont_sub, .mk_input = mk_grid, .pic_w = 8, .pic_h = 4, .out_def_prefix = "pic.",
+     .out_not_block = true, .pic_size_oracle = true, .in_shapes = 1 << 0 | 1 << 4},
+    {.name = "audio_merge", .kind = K_RECHUNK, .alloc = alloc_audio_merge, .has_subs = true, .sub_io = true, .bad_def = "block.", .in_def = "sound.f32.",
+     .flow_fix = fix_mono, .mk_input = mk_mono, .out_def_prefix = "sound.f32.", .out_not_block = true},
+    {.name = "audio_split", .kind = K_RECHUNK, .alloc = alloc_audio_split, .bad_def = "block.", .in_def = "sound.s32.", .flow_fix = fix_sound, .mk_input = mk_sound,
+     .out_def_prefix = "sound.s32.", .out_not_block = true, .has_subs = true, .sub_alloc = sub_audio_split},
     {.name = "ts_psi_join", .kind = K_RECHUNK, .alloc = alloc_ts_psi_join, .has_subs = true, .sub_io = true, .bad_def = "block.", .in_def = "block.mpegtspsi.",
      .in_tab = tab_psi, .out_def_prefix = "block.mpegtspsi."},
     {.name = "ts_psi_split", .kind = K_RECHUNK, .alloc = alloc_ts_psi_split, .bad_def = "block.", .in_def = "block.mpegtspsi.", .out_def_prefix = "block.mpegtspsi.",
@@ -1270,7 +1781,7 @@ static void opstr(int op, char *b, size_t n)
     else if (op == OP_FLOW2) snprintf(b, n, "set_flow_def(F2)");
     else if (op == OP_FLOWBAD) snprintf(b, n, "set_flow_def(bad)");
     else if (op >= OP_IN0 && op < OP_IN0 + NSHAPES && g_row && g_row->mk_input)
-        snprintf(b, n, "input(%s shape %d)", g_row->mk_input == mk_pic ? "picture" : g_row->mk_input == mk_sound ? "sound" : "no payload,", op - OP_IN0);
+        snprintf(b, n, "input(%s shape %d)", g_row->mk_input == mk_void ? "no payload," : g_row->pic_w ? "picture" : "sound", op - OP_IN0);
     else if (op >= OP_IN0 && op < OP_IN0 + NSHAPES && g_row && g_row->in_tab)
         snprintf(b, n, "input(%s)", g_row->in_tab[op - OP_IN0].desc);
     else if (op >= OP_IN0 && op < OP_IN0 + NSHAPES)
@@ -1310,7 +1821,13 @@ static void sev_add(struct st *st, int stamp, int sink, int what);
 static int on_event(struct px_fix *fx, struct upipe *upipe, int event, va_list args)
 {
     struct side *s = fx->user;
-    (void)upipe;
+    /* (local events share their numbers: the signature tells them apart, and must be looked at before anything is taken from args) */
+    if (event == UPROBE_BLIT_PREPARE_READY && ubase_get_signature(args) == UPIPE_BLIT_SIGNATURE) {
+        /* what uprobe_blit_prepare does: the application asks for the picture as soon as the pipe says it can prepare one */
+        (void)va_arg(args, unsigned);
+        struct upump **upump_p = va_arg(args, struct upump **);
+        return upipe_blit_prepare(upipe, upump_p);
+    }
     if (event == UPROBE_PROBE_UREF) {
         unsigned sig = va_arg(args, unsigned);
         if (sig == UPIPE_PROBE_UREF_SIGNATURE) {
@@ -1373,9 +1890,45 @@ static void src_pump_cb(struct upump *upump)
     struct st *st = g_cur_st;
     if (s->pipe == NULL || (!g_row->pump_to_main && (in_pipe(s) == NULL || st->flow == 0)))
         return;
+    if (g_row->tick_pipe && g_row->tick_pipe(s) == NULL)
+        return;
     s->in_pump = true;
     do_input(st, s, 0, s == &st->a, false);
     s->in_pump = false;
+}
+
+/* the recording sinks, plus the size of every picture delivered and the hsize / vsize of every definition offered (index = record number) */
+static void cat_sink_input(struct upipe *upipe, struct uref *uref, struct upump **upump_p)
+{
+    struct px_fix *fx = px_sink_from_upipe(upipe)->fx;
+    struct side *s = fx->user;
+    if (fx->nsrec < PX_MAXS) {
+        size_t w, h;
+        s->rec_w[fx->nsrec] = s->rec_h[fx->nsrec] = -1;
+        if (uref->ubuf != NULL && ubase_check(uref_pic_size(uref, &w, &h, NULL))) {
+            s->rec_w[fx->nsrec] = (int)w;
+            s->rec_h[fx->nsrec] = (int)h;
+        }
+    }
+    px_sink_input(upipe, uref, upump_p);
+}
+static int cat_sink_control(struct upipe *upipe, int command, va_list args)
+{
+    struct px_fix *fx = px_sink_from_upipe(upipe)->fx;
+    struct side *s = fx->user;
+    if (command == UPIPE_SET_FLOW_DEF && fx->nsrec < PX_MAXS) {
+        va_list copy;
+        va_copy(copy, args);
+        struct uref *flow_def = va_arg(copy, struct uref *);
+        va_end(copy);
+        uint64_t w, h;
+        s->rec_w[fx->nsrec] = s->rec_h[fx->nsrec] = -1;
+        if (flow_def != NULL && ubase_check(uref_pic_flow_get_hsize(flow_def, &w)) && ubase_check(uref_pic_flow_get_vsize(flow_def, &h))) {
+            s->rec_w[fx->nsrec] = (int)w;
+            s->rec_h[fx->nsrec] = (int)h;
+        }
+    }
+    return px_sink_control(upipe, command, args);
 }
 
 static void side_init(struct st *st, struct side *s, bool with_getters)
@@ -1391,6 +1944,8 @@ static void side_init(struct st *st, struct side *s, bool with_getters)
         s->fx.sinks[i].unhandled_requests = true; /* requests end up at the probes, which provide */
         s->fx.sinks[i].sync_provide = g_prov == 1 && !g_row->out_not_block; /* ... or the sinks answer with the shared managers */
         s->fx.sinks[i].defer_provide = g_prov == 2 && !g_row->out_not_block; /* ... or later, when the history says so */
+        s->fx.sinks[i].mgr.upipe_input = cat_sink_input;
+        s->fx.sinks[i].mgr.upipe_control = cat_sink_control;
     }
     urequest_init_uref_mgr(&s->up_req, up_provide, NULL);
     urequest_set_opaque(&s->up_req, s);
@@ -1433,7 +1988,7 @@ static void run_getters(struct st *st, struct side *s, const char *when)
 {
     for (int oi = 0; oi < g_row->nopts; oi++) {
         const struct optdef *o = &g_row->opt[oi];
-        if (o->get == NULL)
+        if (o->get == NULL || (o->on_sub && s->subs[0] == NULL))
             continue;
         char got[96] = "", want[96];
         int e = o->get(s, got, sizeof(got));
@@ -1452,7 +2007,7 @@ static void run_getters(struct st *st, struct side *s, const char *when)
             FAIL(st, sg, "getter of option '%s' returned error %d %s", o->name, e, when);
         } else if (strcmp(got, want)) {
             char sg[64];
-            snprintf(sg, sizeof(sg), "get-%s:wrong-value", o->name);
+            snprintf(sg, sizeof(sg), st->refused_opt == oi ? "get-%s:changed-by-refused-setter" : "get-%s:wrong-value", o->name);
             FAIL(st, sg, "getter of option '%s' returned %s, last accepted value is %s (%s)", o->name, got, want, when);
         }
     }
@@ -1605,7 +2160,7 @@ static void do_input(struct st *st, struct side *s, int sh, bool primary, bool r
                 for (int k = 0; k < PX_NSINKS; k++)
                     x->mustnot[k] = true;
         }
-        upipe_input(s->in_pump && g_row->pump_to_main ? s->pipe : in_pipe(s), u, s->in_pump ? &s->src_pump : NULL);
+        upipe_input(s->in_pump && g_row->pump_to_main ? (g_row->tick_pipe ? g_row->tick_pipe(s) : s->pipe) : in_pipe(s), u, s->in_pump ? &s->src_pump : NULL);
     }
 }
 
@@ -1702,6 +2257,8 @@ static bool op_enabled(struct st *st, int op)
         int sh = op - OP_IN0;
         if (!st->flow || st->nseq >= MAXSEQ - 1)
             return false;
+        if (r->in_shapes && !(r->in_shapes & 1u << sh))
+            return false;
         if (shapes[sh].future && strcmp(r->name, "time_limit") && !r->in_tab && !r->mk_input)
             return false;
         if (!strncmp(r->name, "skip", 4) && st->optmodel[0] >= 0 && (int)skip_vals[st->optmodel[0]] > shapes[sh].size)
@@ -1718,7 +2275,7 @@ static bool op_enabled(struct st *st, int op)
         return r->has_flush;
     if (op >= OP_OPT0 && op < OP_OPT0 + MAXOPT * MAXVAL) {
         int oi = (op - OP_OPT0) / MAXVAL, vi = (op - OP_OPT0) % MAXVAL;
-        return oi < r->nopts && vi < r->opt[oi].nvals;
+        return oi < r->nopts && vi < r->opt[oi].nvals && (!r->opt[oi].on_sub || s->subs[0] != NULL);
     }
     if (op == OP_SUB_ALLOC)
         return r->has_subs && (s->subs[0] == NULL || s->subs[1] == NULL);
@@ -1738,6 +2295,7 @@ static bool op_enabled(struct st *st, int op)
         return r->has_subs && !r->sub_io && !s->probe_teardown;
     if (op == OP_IN_PUMP)
         return r->kind != K_SINK && (st->flow != 0 || r->pump_to_main) && st->nseq < MAXSEQ - 1 && vmock_pump_from_upump(s->src_pump)->active &&
+               (!r->tick_pipe || r->tick_pipe(s) != NULL) &&
                !(!strncmp(r->name, "skip", 4) && st->optmodel[0] >= 0 && (int)skip_vals[st->optmodel[0]] > shapes[0].size) &&
                !(!strcmp(r->name, "genaux") && st->optmodel[0] == 2);
     if (op == OP_TD_ORDER)
@@ -1769,6 +2327,7 @@ static int apply(void *vst, int op, bool check)
     int srec0 = fx->nsrec;
     int nseq0 = st->a.nseq;
     int stamp0 = fx->stamp;
+    bool first_sub = op == OP_SUB_ALLOC && st->a.subs[0] == NULL;
     int ea = apply_side(st, &st->a, op, true);
     if (ea == -1 && (op == OP_PUMP0 || op == OP_PUMP1)) {
         pxm_pause();
@@ -1818,6 +2377,8 @@ static int apply(void *vst, int op, bool check)
     if (op == OP_SUB_ALLOC) {
         int k = st->om[1].live ? 2 : 1;
         st->om[k] = (struct omodel){true, st->flow, 0, OS_NONE};
+        if (first_sub && g_row->sub0_selects)
+            st->optmodel[0] = 0;
     }
     if (op == OP_SUB_OUT)
         for (int k = 1; k <= 2; k++)
@@ -1830,6 +2391,10 @@ static int apply(void *vst, int op, bool check)
         st->om[1 + op - OP_SUB_REL0].live = false;
     if (op == OP_SUB_REL0 && g_row->sub_io)
         st->flow = 0; /* a new input subpipe starts without a definition */
+    if (op == OP_SUB_REL0)
+        for (int oi = 0; oi < g_row->nopts; oi++)
+            if (g_row->opt[oi].on_sub)
+                st->optmodel[oi] = -1; /* ... and with the initial values of its options */
     if (op == OP_TOGGLE_S0)
         st->sink_toggled = true;
     if (op == OP_FLUSH)
@@ -1855,6 +2420,7 @@ static int apply(void *vst, int op, bool check)
     st->hist_hash = st->hist_hash * 1000003ULL + (uint64_t)op + 1;
 
     /* ---- C20 ---- */
+    st->refused_opt = op >= OP_OPT0 && op < OP_OPT0 + MAXOPT * MAXVAL && !ubase_check(ea) ? (op - OP_OPT0) / MAXVAL : -1;
     if ((g_oracle & O_C20) && !st->released) {
         char when[160], ob[96];
         opstr(op, ob, sizeof(ob));
@@ -2046,6 +2612,23 @@ static int final_check(void *vst)
             FAIL(st, "end:loop-never-quiescent", "the event loop still had ready pumps after 200 dispatches following the release of every pipe");
     }
     struct px_fix *fx = &st->a.fx;
+    if (g_dump) { /* --dump (with --replay): what the probe and the sinks of the first instance recorded */
+        for (int i = 0, j = 0; i < fx->nerec || j < fx->nsrec;) {
+            if (j >= fx->nsrec || (i < fx->nerec && fx->erec[i].stamp < fx->srec[j].stamp)) {
+                printf("  [%d] pipe %p event %s %s\n", fx->erec[i].stamp, (void *)fx->erec[i].pipe, px_event_name(fx->erec[i].event), fx->erec[i].text);
+                i++;
+            } else {
+                struct px_srec *g = &fx->srec[j];
+                if (g->kind == PXS_FLOWDEF)
+                    printf("  [%d] sink %d set_flow_def \"%s\" id=%d %dx%d -> %d\n", g->stamp, g->sink, g->def, g->flow_id, st->a.rec_w[j], st->a.rec_h[j], g->result);
+                else if (g->kind == PXS_INPUT)
+                    printf("  [%d] sink %d input seq=%" PRId64 " size=%d pic=%dx%d\n", g->stamp, g->sink, g->seq, g->size, st->a.rec_w[j], st->a.rec_h[j]);
+                else
+                    printf("  [%d] sink %d %s type %d\n", g->stamp, g->sink, g->kind == PXS_REGISTER ? "register" : g->kind == PXS_UNREGISTER ? "unregister" : "control", g->kind == PXS_OTHERCTL ? g->result : g->req_type);
+                j++;
+            }
+        }
+    }
 
     if (g_oracle & O_C04) {
         char sg[96];
@@ -2111,6 +2694,21 @@ static int final_check(void *vst)
             }
             (void)cur_id;
         }
+        /* picture rows: a picture delivered to a sink has the size announced by the last definition that sink accepted */
+        for (int k = 0; k < PX_NSINKS && g_row->pic_size_oracle; k++) {
+            int def_w = -1, def_h = -1;
+            for (int i = 0; i < fx->nsrec; i++) {
+                struct px_srec *g = &fx->srec[i];
+                if (g->sink != k)
+                    continue;
+                if (g->kind == PXS_FLOWDEF && g->result == UBASE_ERR_NONE) {
+                    def_w = st->a.rec_w[i];
+                    def_h = st->a.rec_h[i];
+                } else if (g->kind == PXS_INPUT && st->a.rec_w[i] >= 0 && def_w >= 0 && (st->a.rec_w[i] != def_w || st->a.rec_h[i] != def_h))
+                    FAIL(st, "flow:picture-size-differs-from-definition", "sink %d received a %dx%d picture (seq=%" PRId64 ") while the last flow definition it accepted announces %dx%d",
+                         k, st->a.rec_w[i], st->a.rec_h[i], g->seq, def_w, def_h);
+            }
+        }
     }
     st->nseq = st->a.nseq;
     if (g_oracle & O_C05) {
@@ -2173,6 +2771,15 @@ static int final_check(void *vst)
                     ubuf_mgr_release(aux[i]);
                 }
             sides[k]->pic_mgr = sides[k]->sound_mgr = NULL;
+            struct ubuf_mgr *aux2[3] = {sides[k]->pic444_mgr, sides[k]->f32_mgr, sides[k]->mono_mgr};
+            for (int i = 0; i < 3; i++)
+                if (aux2[i] != NULL) {
+                    if (aux2[i]->refcount && uatomic_load(&aux2[i]->refcount->refcount) != 1 && (g_oracle & O_C01))
+                        FAIL(st, "end:upstream-ubuf-mgr-refs", "the upstream's %s manager has %u references after teardown (expected 1)", i == 0 ? "4:4:4 picture" : i == 1 ? "f32 stereo" : "f32 mono",
+                             (unsigned)uatomic_load(&aux2[i]->refcount->refcount));
+                    ubuf_mgr_release(aux2[i]);
+                }
+            sides[k]->pic444_mgr = sides[k]->f32_mgr = sides[k]->mono_mgr = NULL;
             urequest_clean(&sides[k]->up_req);
         }
     char sg[96] = "";
@@ -2228,9 +2835,13 @@ static void canon(void *vst, struct vbuf *out)
     vbuf_put(out, &st->hist_hash, sizeof(st->hist_hash));
 }
 
+/* --only a,b,c: the exploration offers these operations only (a start-state prefix and a replayed history are not restricted) */
+static bool g_only_set, g_only[128];
 static bool enabled_cb(void *vst, int op)
 {
     struct st *st = vst;
+    if (g_only_set && !g_only[op])
+        return false;
     if (!op_enabled(st, op))
         return false;
     if ((op == OP_PUMP0 || op == OP_PUMP1)) {
@@ -2266,6 +2877,15 @@ int main(int argc, char **argv)
             g_qlen = atoi(argv[++i]);
         else if (!strcmp(argv[i], "--prov") && i + 1 < argc)
             g_prov = atoi(argv[++i]);
+        else if (!strcmp(argv[i], "--dump"))
+            g_dump = true;
+        else if (!strcmp(argv[i], "--only") && i + 1 < argc) {
+            int ops[128], n = seqx_parse_hist(argv[++i], ops, 128);
+            g_only_set = true;
+            for (int k = 0; k < n; k++)
+                if (ops[k] >= 0 && ops[k] < 128)
+                    g_only[ops[k]] = true;
+        }
         else if (!strcmp(argv[i], "--list")) {
             for (int r = 0; r < NROWS; r++)
                 printf("%s\n", rows[r].name);
